@@ -76,6 +76,9 @@ type Consumer struct {
 	PauseAt  int    `json:"pause_at"`  // -1: never; consumer stops receiving when the writer reaches this op
 	ResumeAt int    `json:"resume_at"` // consumer resumes when the writer reaches this op
 	Yields   int    `json:"yields"`    // runtime.Gosched() calls between two receives
+	// Lazy: the consumer asks for the Status() channel only when it starts receiving (a consumer
+	// that is absent until Close has then never touched the ProgressWriter before Close began).
+	Lazy bool `json:"lazy,omitempty"`
 }
 
 // Case is one replayable scenario.
@@ -186,6 +189,8 @@ type scen struct {
 	ch chan int
 	sk *sink
 
+	lazyCh atomic.Value // chan int obtained by a lazy consumer (read by release())
+
 	startSig, pauseSig, resumeSig chan struct{}
 	writerDone, consumerDone      chan struct{}
 
@@ -295,6 +300,10 @@ func consumerLoop(s *scen) {
 	<-s.startSig
 	s.cstate.Store(csRecv)
 	ch, y := s.ch, s.cs.Cons.Yields
+	if s.cs.Cons.Lazy {
+		ch = s.pw.Status()
+		s.lazyCh.Store(ch)
+	}
 	if s.cs.Cons.PauseAt >= 0 {
 	phase1:
 		for {
@@ -481,6 +490,13 @@ func (s *scen) awaitConsumer(st *stats) (res result, joined bool) {
 // scenario may leak otherwise).
 func (s *scen) release() {
 	if s.ch == nil {
+		if v, ok := s.lazyCh.Load().(chan int); ok {
+			s.ch = v
+		} else if s.pw != nil {
+			s.ch = s.pw.Status()
+		}
+	}
+	if s.ch == nil {
 		return
 	}
 	stop := make(chan struct{})
@@ -590,12 +606,14 @@ func runOnce(cs Case, st *stats) (res result) {
 			}
 		}()
 		s.pw = ioutil.NewProgressWriter(w)
-		s.ch = s.pw.Status()
+		if !cs.Cons.Lazy {
+			s.ch = s.pw.Status()
+		}
 	}()
 	if res.key != "" {
 		return res
 	}
-	if s.ch == nil {
+	if s.ch == nil && !cs.Cons.Lazy {
 		return result{key: "status:nil-channel", exp: "Status() returns the channel progress is sent to", obs: "nil channel"}
 	}
 	go consumerLoop(s)
